@@ -6,6 +6,7 @@ import (
 	"fmt"
 	"regexp"
 	"strconv"
+	"sync/atomic"
 
 	"google.golang.org/protobuf/proto"
 
@@ -199,13 +200,12 @@ func decode(msg *compilerpb.Report) (*report.Report, []byte, error) {
 }
 
 func runRT(in *bufio.Scanner, sk *sink) {
-	n, checks := 0, 0
-	for in.Scan() {
-		raw := in.Bytes()
+	var n, checks atomic.Int64
+	pump(in, func(raw []byte) {
 		switch kindOf(raw) {
 		case "meta":
 			checkMeta(raw)
-			continue
+			return
 		case "rt":
 		default:
 			harnessFail("rt: unexpected case kind")
@@ -214,7 +214,7 @@ func runRT(in *bufio.Scanner, sk *sink) {
 		if err := json.Unmarshal(raw, &c); err != nil {
 			harnessFail("bad rt case: " + err.Error())
 		}
-		n++
+		n.Add(1)
 		func() {
 			defer func() {
 				if r := recover(); r != nil {
@@ -240,17 +240,18 @@ func runRT(in *bufio.Scanner, sk *sink) {
 			wantPB := expectedPB(c.Proto)
 
 			// (a) ToProto against the expected form
-			checks++
+			checks.Add(1)
 			gotPB, ok := r.ToProto().(*compilerpb.Report)
 			if !ok {
 				harnessFail("ToProto did not return *compilerpb.Report")
 			}
-			if f := diffPB(gotPB, wantPB); f != "" {
-				sk.report("encode:"+f, "ToProto differs from the documented form in "+f, raw)
+			badEncoding := diffPB(gotPB, wantPB)
+			if badEncoding != "" {
+				sk.report("encode:"+badEncoding, "ToProto differs from the documented form in "+badEncoding, raw)
 			}
 
 			// (b) AppendFromProto of the expected form (independent of ToProto)
-			checks++
+			checks.Add(1)
 			if dec, _, err := decode(wantPB); err != nil {
 				sk.report("decode:rejected:"+rejectClass(err, wantPB), err.Error(), raw)
 			} else if f := diffReport(projectReport(dec), want, false); f != "" {
@@ -258,15 +259,23 @@ func runRT(in *bufio.Scanner, sk *sink) {
 			}
 
 			// (c) the whole chain on the real encoding
-			checks++
+			checks.Add(1)
 			dec, _, err := decode(gotPB)
 			if err != nil {
-				sk.report("roundtrip:rejected:"+rejectClass(err, gotPB), err.Error(), raw)
+				if badEncoding != "" { // a consequence of the encoding defect already classified above
+					sk.report("roundtrip:after-bad-encoding:"+badEncoding, err.Error(), raw)
+				} else {
+					sk.report("roundtrip:rejected:"+rejectClass(err, gotPB), err.Error(), raw)
+				}
 				return
 			}
 			got := projectReport(dec)
 			if f := diffReport(got, want, false); f != "" {
-				sk.report("roundtrip:field:"+firstWord(f), f, raw)
+				if badEncoding != "" {
+					sk.report("roundtrip:after-bad-encoding:"+badEncoding, f, raw)
+				} else {
+					sk.report("roundtrip:field:"+firstWord(f), f, raw)
+				}
 				return
 			}
 			// same rendering before and after (guards the projection itself)
@@ -276,8 +285,8 @@ func runRT(in *bufio.Scanner, sk *sink) {
 				}
 			}
 		}()
-	}
-	stats(map[string]any{"cases": n, "checks": checks, "classes": sk.perClass})
+	})
+	stats(map[string]any{"cases": n.Load(), "checks": checks.Load(), "classes": sk.perClass})
 }
 
 func firstWord(s string) string {
